@@ -170,7 +170,8 @@ class LSFScriptAdapter(SchedulerScriptAdapter):
         rs_per_node = kwargs.get("rs per node", 1)
         tasks_per_rs = kwargs.get("tasks per rs", 1)
 
-        if int(procs) > int((int(rs_per_node)*int(nodes)*int(tasks_per_rs))):
+        if nodes and \
+                int(procs) > int((int(rs_per_node)*int(nodes)*int(tasks_per_rs))):
 
             LOGGER.error("Resource Specification Error: 'procs' (%s)"
                          " must be a multiple of "
